@@ -283,7 +283,8 @@ func verifC05Later() {
 	name := vBytes(2)
 	withKeys := vBool()
 	var exts []vExt
-	switch vInt(0, 4) {
+	kind := vInt(0, 4)
+	switch kind {
 	case 0: // GREASE / unknown ECH on a TLS 1.3 hello
 		exts = []vExt{vSNI(name), vVersions(0x0304), vECHOuter(vUint16(), vUint16(), vByte(), vBytes(32), vBytes(3))}
 	case 1: // no ECH at all
@@ -310,6 +311,7 @@ func verifC05Later() {
 	}
 	c, err := NewConn(context.Background(), tr, opts...)
 	vAssert(err == nil && !c.ECHAccepted(), "GREASE / unknown ECH passes through")
+	vAssert(c.ECHPresented() == (kind == 0 || kind == 2 || kind == 3), "ECHPresented reports an outer-type ECH extension, and only that")
 	vAssert(len(tr.out) == 0 && !tr.closed, "nothing is written to the client, the connection stays open")
 	first, _ := vReadAll(c, 400, len(tr.in))
 	vAssert(vBytesEq(first, vCat(h.record(), early)), "hello (and what the client had already sent behind it) forwarded unchanged")
